@@ -71,7 +71,9 @@ def _scribble(arrs):
 IVS = [dict(), dict(do_interventions={0: (1.5, 2.0)}), dict(do_interventions={1: 3}),
        dict(shift_interventions={0: (1, 1)}, noise_interventions={1: (0.5, 0.5)}),
        dict(noise_interventions={0: 2.5}, do_interventions={2: (0, 1)}), dict(do_interventions={0: 1}, shift_interventions={0: (2, 2)}),
-       dict(shift_interventions={1: 0.5, 2: (1, 0.25)})]
+       dict(shift_interventions={1: 0.5, 2: (1, 0.25)}),
+       # identical parameters on one target under different intervention types (results must not be confused)
+       dict(noise_interventions={2: (1.0, 2.0)}), dict(do_interventions={2: (1.0, 2.0)}), dict(shift_interventions={2: (1.0, 2.0)})]
 
 
 class LganmRunner:
@@ -232,6 +234,16 @@ class NormalRunner:
             raise Violation("model_mutated", "mean / covariance of the NormalDistribution changed after the call history")
 
 
+class ParamNoise:
+    """Noise distribution given as a callable *object* that holds its parameters in an array (location, scale)."""
+
+    def __init__(self, params):
+        self.params = params
+
+    def __call__(self, n):
+        return self.params[0] + self.params[1] * np.random.standard_normal(n)
+
+
 class AnmRunner:
     kind = "anm"
 
@@ -249,6 +261,9 @@ class AnmRunner:
             k = int((A[:, i] != 0).sum())
             assignments.append(None if k == 0 else (lambda Xb, c=np.arange(1, k + 1, dtype=float): np.tanh(Xb) @ c))
         self.noises = [noise.normal(i, 1 + i) if i % 2 == 0 else noise.uniform(-1 - i, 1) for i in range(p)]
+        if p >= 2:
+            self.noises[p - 1] = ParamNoise(np.array([0.5, 2.0]))         # a callable object holding an array
+            self.param_noise = self.noises[p - 1]
         self.assign_list = assignments
         return sempler.ANM(A, assignments, self.noises)
 
@@ -284,9 +299,9 @@ class AnmRunner:
             res = must(lib(self.model.sample, step["n"], random_state=step["seed"], **iv), "ANM.sample")
             if {k: set(v) for k, v in iv.items()} != {k: set(v) for k, v in given.items()} or any(iv[k][t] is not given[k][t] for k in iv for t in iv[k]):
                 raise Violation("intervention_dict_modified", "ANM.sample changed the intervention dict it was given")
-            saved = self.noises, self.assign_list
+            saved = self.noises, self.assign_list, getattr(self, "param_noise", None)
             fresh = must(lib(self._build, self.pristine[0].copy()), "fresh ANM")
-            self.noises, self.assign_list = saved
+            self.noises, self.assign_list, self.param_noise = saved
             want = must(lib(fresh.sample, step["n"], random_state=step["seed"], **given), "fresh ANM.sample")
             if _snap(np.asarray(res)) != _snap(np.asarray(want)):
                 raise Violation("history_dependent", "ANM.sample(n=%d, seed=%d, iv#%d) differs from the same call on a fresh model" % (step["n"], step["seed"], step["iv"]))
@@ -297,6 +312,8 @@ class AnmRunner:
                 self.n_queries_after += 1
         elif op == "mutate_caller":
             self.caller[0] += 1
+            if getattr(self, "param_noise", None) is not None:
+                self.param_noise.params += 100.0          # the caller edits the array inside its callable object
             # the caller also edits the lists it passed in
             self.caller_lists[0][0] = lambda Xb: 1e6
             self.caller_lists[1][0] = lambda n: np.full(n, 1e6)
@@ -369,6 +386,9 @@ def _sweep_calls():
     reg("is_clique", lambda A, D, c: (u.is_clique, [set(c["S"]), A], {}))
     reg("induced_subgraph", lambda A, D, c: (u.induced_subgraph, [set(c["S"]), A], {}))
     reg("imec", lambda A, D, c: (u.imec, [D, set(c["S"])], {}))
+    reg("chain_graph_MEC", lambda A, D, c: (u.chain_graph_MEC, [len(A)], {}))
+    reg("chain_graph", lambda A, D, c: (u.chain_graph, [len(A)], {}))
+    reg("chain_then_mec", lambda A, D, c: (lambda p, I: [u.mec(u.chain_graph(p)), u.imec(u.chain_graph(p), I)], [len(A), set(c["S"])], {}))
     reg("dag_to_icpdag", lambda A, D, c: (u.dag_to_icpdag, [D, set(c["S"])], {}))
     reg("pdag_to_icpdag", lambda A, D, c: (u.pdag_to_icpdag, [D, set(c["S"])], {}))
     reg("semi_directed_paths", lambda A, D, c: (u.semi_directed_paths, [c["i"] % len(A), c["j"] % len(A), A], {}))
@@ -419,6 +439,20 @@ def _sweep_calls():
 
 
 _CALLS = None
+NON_DETERMINISTIC = {"LGANM", "ANM", "NormalDistribution", "LGANM_list", "DRFNet"}     # objects / bound methods: compared elsewhere
+
+
+def _result_view(v):
+    """What is compared between two identical calls: arrays, sets, lists, numbers (objects by their arrays)."""
+    if hasattr(v, "mean") and hasattr(v, "covariance"):
+        return [v.mean, v.covariance]
+    if isinstance(v, (list, tuple)):
+        return [_result_view(x) for x in v]
+    if isinstance(v, dict):
+        return {repr(k): _result_view(x) for k, x in v.items()}
+    if hasattr(v, "__dict__") and not isinstance(v, np.ndarray):
+        return "object"
+    return v
 
 
 def check(case):
@@ -458,9 +492,17 @@ def check(case):
             for aa in arg_arrays:
                 if ra.size and aa.size and np.shares_memory(ra, aa):
                     raise Violation("result_aliases_argument:%s" % name, "the result of %s shares memory with an argument; graph=%s" % (name, A.tolist()))
+    first = _snap(_result_view(o.value))
     _scribble(res_arrays)
     if _snap([args, kwargs]) != before:
         raise Violation("result_aliases_argument:%s" % name, "writing into the result of %s changed an argument; graph=%s" % (name, A.tolist()))
+    # the same call again, after the caller overwrote what it got the first time: same answer (no cached / shared storage)
+    if name not in NON_DETERMINISTIC:
+        o2 = lib(fn, *args, **kwargs)
+        if o2.ok and _snap(_result_view(o2.value)) != first:
+            raise Violation("result_depends_on_history:%s" % name, "%s returns something else after the caller overwrote its first result "
+                            "(shared or cached storage); graph=%s" % (name, A.tolist()))
+        lab.append("repeated")
     if res_arrays and arg_arrays:
         lab.append("array_from_array")
     return lab
@@ -474,8 +516,11 @@ def sweep_case(draw):
     global FN_NAMES
     if FN_NAMES is None:
         FN_NAMES = sorted(_sweep_calls())
-    kind = draw(st.sampled_from(["pdag", "dag", "weighted"]))
-    if kind == "pdag":
+    kind = draw(st.sampled_from(["pdag", "dag", "weighted", "chain"]))
+    if kind == "chain":
+        p = draw(st.integers(2, 6))
+        case = {"A": [[int(j == i + 1) for j in range(p)] for i in range(p)], "dtype": draw(st.sampled_from(["int", "float"]))}
+    elif kind == "pdag":
         case = {"A": draw(S.pdag(1, 6, max_undirected=6, weights=(3, 3, 2))), "dtype": draw(st.sampled_from(["int", "float"]))}
     elif kind == "dag":
         case = {"A": draw(S.dag_pattern(1, 6)), "dtype": draw(st.sampled_from(["int", "float"]))}
